@@ -116,7 +116,9 @@ func propC20(c *Ctx) {
 		})
 		c.Ordered(x2, fn, []string{"Write(key)", "Write(GUID)", "Sum"}, []func(Site) bool{
 			func(s Site) bool { return s.Target == "iface:hash.Hash.Write" && len(s.Args) == 2 && s.Args[1] == "$0" },
-			func(s Site) bool { return s.Target == "iface:hash.Hash.Write" && len(s.Args) == 2 && s.Args[1] == "websocket.KeyGUID" },
+			func(s Site) bool {
+				return s.Target == "iface:hash.Hash.Write" && len(s.Args) == 2 && s.Args[1] == "websocket.KeyGUID"
+			},
 			func(s Site) bool { return s.Target == "iface:hash.Hash.Sum" },
 		})
 	}
